@@ -5,14 +5,17 @@ import time
 from harness import common, l2tie, pool, scenarios
 
 
+MODEL_PROFILES = {'straight', 'branch', 'memory', 'storage', 'hash'}
+
+
 def _worker(task):
-    seed, desc, n_random, patch_unknown = task
+    seed, desc, n_random, patch_unknown, with_model = task
     scn = scenarios.from_description(desc)
     rng = random.Random(seed)
     if patch_unknown:
         _patch_unknown(patch_unknown, seed)
     t = time.time()
-    res = l2tie.check_scenario(scn, rng, n_random=n_random)
+    res = l2tie.check_scenario(scn, rng, n_random=n_random, with_model=with_model)
     res["seconds"] = round(time.time() - t, 2)
     return res
 
@@ -36,12 +39,14 @@ def _patch_unknown(p, seed):
     Path.check = check
 
 
-def run_corpus(descs, seed0, n_random=3, patch_unknown=0.0, timeout=90, total_timeout=None):
+def run_corpus(descs, seed0, n_random=3, patch_unknown=0.0, timeout=90, total_timeout=None, with_model=False):
     """descs: list of scenario descriptions -> list of (desc, status, result)"""
     from harness import refevm
 
     refevm.driver()  # build the reference driver once, before forking
-    tasks = [(seed0 + i, d, n_random, patch_unknown) for i, d in enumerate(descs)]
+    if with_model:
+        l2tie.sym_driver()
+    tasks = [(seed0 + i, d, n_random, patch_unknown, with_model and d.get('profile') in MODEL_PROFILES) for i, d in enumerate(descs)]
     out = pool.run_tasks(_worker, tasks, timeout=timeout, total_timeout=total_timeout)
     return [(d, st, val) for d, (st, val) in zip(descs, out)]
 
